@@ -71,7 +71,7 @@ VerdictCoarse ==
   IF Ev.inr = 0 THEN {} ELSE
      Viol("COARSE_APPARENT_LONGITUDE", WithinMod(Ev.lc, Ev.lv, 360, Dec(2, 2)))
 \cup Viol("COARSE_TRUE_LONGITUDE", WithinMod(Ev.tc, Ev.tv, 360, Dec(2, 2)) /\ Within(Ev.rc, Ev.rv, Dec(1, 3)))
-\cup Viol("COARSE_RA_DEC", WithinMod(Ev.rac, Ev.rav, 360, Dec(25, 3)) /\ Within(Ev.dc, Ev.dv, Dec(2, 2)))
+\cup Viol("COARSE_RA_DEC", WithinMod(Ev.rac, Ev.rav, 360, Dec(2, 2)) /\ Within(Ev.dc, Ev.dv, Dec(2, 2)))
 
 Verdict == CASE Ev.k = "refl" -> VerdictRefl [] Ev.k = "frame" -> VerdictFrame [] Ev.k = "obl" -> VerdictObl
              [] Ev.k = "coarse" -> VerdictCoarse [] OTHER -> {"UNKNOWN_KIND"}
